@@ -220,7 +220,11 @@ def run_case(case):
     worst = 0.0
     for i in np.where(site_ok)[0]:
         near = np.where((np.linalg.norm(p - p[i], axis=1) < 4.0 * hmax))[0]
-        cell = dom
+        # Only sites within R = 4 hmax are used as competitors, which is exact inside the disc of radius R/2 around the site
+        # (a closer competitor of a point x with |x - p| <= R/2 lies within R of p). Every point of the domain is within hmax
+        # of a site, so the true cell lies well inside that disc; without it the half-plane intersection could leak across a
+        # notch or a hole, where no competitor lies in that direction.
+        cell = dom.intersection(Point(p[i]).buffer(2.0 * hmax, 64))
         for j in near:
             if j == i:
                 continue
@@ -260,7 +264,7 @@ def run_case(case):
         mid = 0.5 * (p[i] + p[j])
         nrm = (p[j] - p[i]) / np.linalg.norm(p[j] - p[i])
         tng = np.array([-nrm[1], nrm[0]])
-        lo, hi = -big, big
+        lo, hi = -2.0 * hmax, 2.0 * hmax  # same argument as for the cells
         near = np.where((np.linalg.norm(p - mid, axis=1) < 4.0 * hmax))[0]
         for q_ in near:
             if q_ in (i, j):
